@@ -410,5 +410,30 @@ def r4b_label_records(chk: Check) -> None:
     shared.init_stores_rule(chk, "C02.R4b", ("generation/meta.py",), "label records: CaseMetadata(generation, components, phase)", 3)
 
 
+def r10_type_keyword_normal_form(chk: Check) -> None:
+    chk.rule("C02.R10", "NORMAL-FORM(`type` keyword): `type` is a string OR a list of strings (OpenAPI 3.1 `type: [string, null]`); the mutations READ it only through get_type(schema), which normalises both spellings - a direct comparison (`schema['type'] == 'string'`, `schema.get('type') in (...)`) sees only the scalar form, so the guards that keep un-negatable schemas away from a mutation (a string in a header / path / query cannot be retyped) do not fire for the list form and valid values are labelled negative", floor=2)
+    P = chk.project
+    n = 0
+    for rel in ("specs/openapi/negative/mutations.py", "specs/openapi/negative/utils.py", "specs/openapi/negative/__init__.py"):
+        for fn in P.module(rel).functions.values():
+            if isinstance(fn.node, ast.Lambda):
+                continue
+            for c in body_calls(fn):
+                if isinstance(c.func, ast.Name) and c.func.id == "get_type":
+                    n += 1
+                    chk.ok("C02.R10", fn, f"{fn.name}: `{unparse(c, 40)}` reads the normalised type list", "", fn.loc(c))
+            for cmp_ in (x for x in walk_body(fn.node) if isinstance(x, ast.Compare)):
+                sides = [cmp_.left] + list(cmp_.comparators)
+                raw = [x for x in sides if (isinstance(x, ast.Subscript) and const_str(x.slice) == "type" and isinstance(x.ctx, ast.Load)) or (isinstance(x, ast.Call) and last_attr(x) == "get" and x.args and const_str(x.args[0]) == "type")]
+                if not raw:
+                    continue
+                n += 1
+                chk.violation("C02.R10", fn, f"{fn.name}: `{unparse(cmp_, 60)}` reads the normalised type list",
+                              "the raw `type` value is compared: for `type: [string, null]` (a list) the test is false although `string` is among the types - e.g. change_type then retypes a nullable string query parameter to integer / boolean, whose values are sent as `q=0` / `q=true`, i.e. valid strings under a negative label",
+                              fn.loc(cmp_))
+    if n < 2:
+        chk.undecided("C02.R10", "<discovery>", f"sites={n}", "fewer reads of the type keyword than confirmed by hand")
+
+
 def rules(tier: str) -> list:  # type: ignore[type-arg]
-    return [r1_invalidity_filter, r2_factory_label, r3_something_negated, r4_labels, r5_mutations, r6_memo, r7_not_shapes_agree, r8_existential_predicates, r9_oracle_dialect, r4b_label_records]
+    return [r1_invalidity_filter, r2_factory_label, r3_something_negated, r4_labels, r5_mutations, r6_memo, r7_not_shapes_agree, r8_existential_predicates, r9_oracle_dialect, r4b_label_records, r10_type_keyword_normal_form]
